@@ -4,6 +4,7 @@ import QG.Props.C06
 #print axioms QG.C06.handoff_ECR
 #print axioms QG.C06.handoff_ECR_inv
 #print axioms QG.C06.pcr_zero
+#print axioms QG.C06.pcr_clamped
 #print axioms QG.C06.pcr_nonneg_iff
 #print axioms QG.C06.quiet_pulse_is_ideal
 #print axioms QG.C06.one_sided_pair
